@@ -37,7 +37,11 @@ package io
 //@   implements (io.Reader).Read
 
 //@ func (*discardingReadSeekerPlusByte).Seek
-//@   implements (io.Seeker).Seek
+//@   note not `implements (io.Seeker).Seek`: seeking past the end of the stream reports the io.EOF of the discarding copy
+//@   modifies pos(drsb), drsb.offset
+//@   ensures start [C03]: err == nil && whence == 0 ==> result0 == offset && pos(drsb) == sbase(drsb) + offset
+//@   ensures cur [C03]: err == nil && whence == 1 ==> pos(drsb) == old(pos(drsb)) + offset && result0 == pos(drsb) - sbase(drsb)
+//@   ensures forward_only [C03]: pos(drsb) >= old(pos(drsb))
 
 //@ func NewOffsetWriter
 //@   ghostinit result
@@ -75,7 +79,10 @@ package io
 //@   ensures def [C07]: result == wrap_s64(pos(o) - sbase(o))
 
 //@ func (*offsetReadSeeker).Seek
-//@   implements (io.Seeker).Seek
+//@   implements (io.Seeker).Seek except nonneg
+//@   note nonneg is not claimed: a relative seek may move before the reader's own origin without an error
+//@   assume sane_origin: o.base >= 0 && o.off >= 0
+//@   assume not_min_int: offset > -9223372036854775808
 //@   modifies o.off, pos(o)
 //@   ghost before call[offsetReadSeeker.Position#0]: pos(o) := o.off
 
